@@ -63,11 +63,13 @@ pub struct Outcome {
     pub fails: Vec<Fail>,
     /// number of elementary checks this case performed (defaults to 1)
     pub evals: u64,
+    /// harness self-check failures (two harness components disagree): exit 2, never a violation
+    pub infra: Vec<String>,
 }
 
 impl Outcome {
     pub fn new() -> Self {
-        Outcome { labels: vec![], nontrivial: false, fails: vec![], evals: 1 }
+        Outcome { labels: vec![], nontrivial: false, fails: vec![], evals: 1, infra: vec![] }
     }
     pub fn label(&mut self, l: &'static str) {
         if !self.labels.contains(&l) {
@@ -236,6 +238,14 @@ impl Ctx {
     }
 
     fn record<E: Engine>(&self, s: &mut EngineStats, eng: &E, case: &E::Case, out: &Outcome) {
+        if !out.infra.is_empty() {
+            let mut ie = self.infra_errors.lock().unwrap();
+            if ie.len() < 20 {
+                for m in &out.infra {
+                    ie.push(format!("{}: {} (case {})", eng.name(), m, serde_json::to_string(case).unwrap_or_default().chars().take(300).collect::<String>()));
+                }
+            }
+        }
         s.evaluations += out.evals.max(1);
         s.cases += 1;
         for l in &out.labels {
